@@ -4,7 +4,7 @@ import OPM.Model.RunState
 /-!
 Line-protocol driver of model M1 (RunState).
 
-First line of a case:  `cfg <guard> <clocks> <prevFix> [<startWrite> <pauseGate> <errSafe>] <mode> <safes> <outs>`
+First line of a case:  `cfg <bits> <mode> <safes> <outs>` (bits: see `parseBits`)
   flags `0/1`; mode `c06|c07|c09|all` selects which observations are printed; `safes` = comma list of
   safe values (`_` = register has none); `outs` = initial output tag values.
 Then:
@@ -52,6 +52,11 @@ def cmdName : Cmd → String
 def sysName : Sys → String
   | .running => "Running" | .paused => "Paused" | .holding => "Holding"
   | .stopped => "Stopped" | .restarting => "Restarting"
+
+/-- repair switches as a string of 0/1 in the order guard, clocks, prevFix, startWrite, pauseGate, errSafe,
+    pauseOnce, idleErr (missing = 0) -/
+def parseBits (s : String) : Option (Nat → Bool) :=
+  if s.toList.all (fun c => c = '0' || c = '1') then some (fun i => s.toList.getD i '0' == '1') else none
 
 def parseSafes (s : String) : Option (List (Option Int)) :=
   if s = "-" then some [] else
@@ -113,22 +118,14 @@ def observe (mode : String) (s : State) (nw0 : Nat) : String :=
 
 def step (σ : Option Sess) (line : String) : Option Sess × String :=
   match σ, fields line with
-  | none, ["cfg", g, c, p, mode, safes, outs] =>
-    match parseBool g, parseBool c, parseBool p, parseSafes safes, intList outs with
-    | some g, some c, some p, some safes, some outs =>
-      let cfg : Cfg := { safes, guard := g, clocks := c, prevFix := p }
+  | none, ["cfg", bits, mode, safes, outs] =>
+    match parseBits bits, parseSafes safes, intList outs with
+    | some f, some safes, some outs =>
+      let cfg : Cfg := { safes, guard := f 0, clocks := f 1, prevFix := f 2, startWrite := f 3, pauseGate := f 4,
+                         errSafe := f 5, pauseOnce := f 6, idleErr := f 7 }
       let st := init cfg outs
       (some ⟨cfg, mode, st⟩, "init " ++ observe mode st 0)
-    | _, _, _, _, _ => (none, "bad-op")
-  | none, ["cfg", g, c, p, sw, pg, es, mode, safes, outs] =>
-    match parseBool g, parseBool c, parseBool p, parseBool sw, parseBool pg, parseBool es,
-          parseSafes safes, intList outs with
-    | some g, some c, some p, some sw, some pg, some es, some safes, some outs =>
-      let cfg : Cfg := { safes, guard := g, clocks := c, prevFix := p, startWrite := sw, pauseGate := pg,
-                         errSafe := es }
-      let st := init cfg outs
-      (some ⟨cfg, mode, st⟩, "init " ++ observe mode st 0)
-    | _, _, _, _, _, _, _, _ => (none, "bad-op")
+    | _, _, _ => (none, "bad-op")
   | none, _ => (none, "bad-op")
   | some ss, fs =>
     let nw0 := ss.st.core.writes.length
